@@ -214,9 +214,49 @@ type (
 	}
 )
 
+// methods named Code that are not the ones the gateway looks for
+type hmP struct{ d *hd }
+type hmV struct{ d *hd }
+type hmT struct{ d *hd }
+
+func (m hmP) Code(lang string) string    { return "odd" }
+func (m hmV) Code(more ...string) string { return "odd" }
+func (m hmT) Code() (string, error)      { return "odd", nil }
+
+type (
+	hePO struct {
+		hmE
+		hmP
+	}
+	hePC struct {
+		hmE
+		hmT
+		hmC
+	}
+	hePU struct {
+		hmE
+		hmV
+		hmU
+	}
+	hePB struct {
+		hmE
+		hmP
+		hmC
+		hmU
+	}
+)
+
 func hMkErr(code string, hasCause, hasUnwrap bool, d *hd) error {
 	e, n, s, c, u := hmE{d}, hmN{d}, hmS{d}, hmC{d}, hmU{d}
 	switch {
+	case code == "odd" && !hasCause && !hasUnwrap:
+		return &hePO{e, hmP{d}}
+	case code == "odd" && hasCause && !hasUnwrap:
+		return &hePC{e, hmT{d}, c}
+	case code == "odd" && !hasCause && hasUnwrap:
+		return &hePU{e, hmV{d}, u}
+	case code == "odd":
+		return &hePB{e, hmP{d}, c, u}
 	case code == "none" && !hasCause && !hasUnwrap:
 		return &heOO{e}
 	case code == "none" && hasCause && !hasUnwrap:
@@ -274,6 +314,9 @@ func (p *htSU) Code() string  { return hTnil.str }
 func (p *htSU) Unwrap() error { return nil }
 
 func hMkTnil(code string, hasUnwrap bool) error {
+	if code == "odd" {
+		code = "none" // typed nil pointers: the odd method sets are covered by the non-nil nodes
+	}
 	switch {
 	case code == "none" && !hasUnwrap:
 		return (*htOO)(nil)
